@@ -4,8 +4,14 @@ import Robotools.Props.C03
 #print axioms Robotools.C03.step_wf
 #print axioms Robotools.C03.abort_safe
 #print axioms Robotools.C03.run_safe
+#print axioms Robotools.C03.steps_bounded
+#print axioms Robotools.C03.prepareAD_oversize
+#print axioms Robotools.C03.pair_mem_plan_nosplit
+#print axioms Robotools.C03.no_split_rejects
 #print axioms Robotools.RP.safe_append
 #print axioms Robotools.RP.safe_rm_emit
 #print axioms Robotools.RP.safe_ad_emit
 #print axioms Robotools.RP.safe_compileTransfer
 #print axioms Robotools.RP.compile_safe
+#print axioms Robotools.RP.within_compile
+#print axioms Robotools.RP.recs_within_exec
